@@ -3,7 +3,9 @@ package world
 // mon_canarynodes.go — C15: status.canary.nodes valid, distinct, stable and as many as requested.
 
 import (
+	"errors"
 	"fmt"
+	apierrors "k8s.io/apimachinery/pkg/api/errors"
 	"sort"
 	"strings"
 
@@ -73,7 +75,8 @@ func CheckCanaryNodes(pre, post *State, reconcileErr error, ns, name string) (is
 	}
 	add := func(sig, msg string) { issues = append(issues, CanaryNodesIssue{sig, msg}) }
 	cs := e0.Spec.Strategy.Canary
-	if reconcileErr != nil && strings.Contains(reconcileErr.Error(), "enough") {
+	var apiErr *apierrors.StatusError
+	if reconcileErr != nil && !errors.Is(reconcileErr, ErrInjected) && !errors.As(reconcileErr, &apiErr) {
 		// "if fewer valid nodes exist the reconcile reports an error": a shortage must not be reported when enough valid
 		// nodes exist (spreading over the anti-affinity values is a preference, the count is the requirement)
 		nValid, nTargeted := 0, 0
@@ -94,7 +97,13 @@ func CheckCanaryNodes(pre, post *State, reconcileErr error, ns, name string) (is
 		want, ok := Resolve(cs.Replicas, nTargeted)
 		wantAlt, _ := Resolve(cs.Replicas, int(e0.Status.Desired))
 		if usable && ok && nValid >= want && nValid >= wantAlt {
-			add("C15/shortage: a shortage of canary nodes is reported although enough valid nodes exist", fmt.Sprintf("%d valid nodes, %d requested (anti-affinity keys %v): %v", nValid, want, cs.NodeAntiAffinityKeys, reconcileErr))
+			if strings.Contains(reconcileErr.Error(), "enough") {
+				add("C15/shortage: a shortage of canary nodes is reported although enough valid nodes exist", fmt.Sprintf("%d valid nodes, %d requested (anti-affinity keys %v): %v", nValid, want, cs.NodeAntiAffinityKeys, reconcileErr))
+			} else if e0.Status.Canary == nil || len(e0.Status.Canary.Nodes) != want {
+				// any other error of its own making (not an API failure) while a selection was due: the selector can be
+				// evaluated and enough valid nodes exist, so there is nothing to report
+				add("C15/refused: the reconcile reports an error instead of selecting canary nodes although the nodeSelector can be evaluated and enough valid nodes exist", fmt.Sprintf("%d valid nodes, %d requested: %v", nValid, want, reconcileErr))
+			}
 		}
 	}
 	if e1.Status.Canary == nil {
